@@ -306,4 +306,29 @@ func init() {
 			"a lease is counted from the clock reading taken just before the call (earliest possible expiry), which is conservative for mutual exclusion",
 		},
 	}
+	props["C14"] = &Property{
+		Title: "table catalogue: unique names, never-reused ids",
+		Instances: func(tier string) []*Instance {
+			tb := "storage/table"
+			r := []*Instance{
+				{Pkg: tb, Func: "VH_C14_step", Unwind: 64},
+				{Pkg: tb, Func: "VH_C14_recreate", Unwind: 64},
+				{Pkg: tb, Func: "VH_C14_race", Unwind: 64},
+				{Pkg: tb, Func: "VH_C14_diff", Args: []int64{2, 1}, Unwind: 64},
+				{Pkg: tb, Func: "VH_C14_diff", Args: []int64{1, 2}, Unwind: 64},
+				{Pkg: tb, Func: "VH_C14_vacuity", Expect: "violated"},
+			}
+			if tier == "thorough" {
+				r = append(r, &Instance{Pkg: tb, Func: "VH_C14_diff", Args: []int64{2, 2}, Unwind: 64})
+			}
+			return r
+		},
+		Covers: map[string][]string{"VH_C14_step": {"end", "create-ok", "create-exists", "delete-ok"}, "VH_C14_recreate": {"end"}, "VH_C14_race": {"end", "one-wins"}, "VH_C14_diff": {"end", "start", "stop"}},
+		Bounds: map[string]string{
+			"quick":    "catalogue over 3 names with arbitrary membership, ids drawn from (10000, seq] for seq in {absent, 10003, 10007}, arbitrary record versions; one create/delete/list step; delete+recreate; two racing creates of one name with every interleaving of their store accesses; diffTables over 2 records x 1 running shard and 1 record x 2 running shards (ids and recover-ids 64-bit symbolic) under all map orders",
+			"thorough": "diffTables 2 x 2",
+		},
+		Outside: "emptiness of a (re)created table's data (the state-machine directory is derived from name and id; exercising FSM.Open needs the file-system model: see C04) and isolation between shards; names containing '/'; actual shard start/stop inside dragonboat; Restore's id switch",
+		Assumptions: []string{"M2 with the real LFSM (C13); M4 json round trip of table.Table", "StartOnDiskReplica/HasNodeInfo only record their arguments"},
+	}
 }
